@@ -82,8 +82,15 @@ class Net (object):
         raise RuntimeError("netsim: more than %d dataplane hops for one stimulus (forwarding loop)" % self.max_hops)
       st = self.sw[i]
       before = st.sw._matched_count
+      # which kind of entry (if any) will absorb this frame: peeked before the real lookup
+      try:
+        from pox.lib.packet.ethernet import ethernet
+        ent = st.sw.table.entry_for_packet(ethernet(raw=frame), port)
+        kind = None if ent is None else ("drop" if not ent.actions else "fwd")
+      except Exception:
+        kind = None
       st.rx(frame, port)
-      rec = [i, port, frame, [], st.sw._matched_count == before]
+      rec = [i, port, frame, [], st.sw._matched_count == before, kind]
       self.trace.append(rec)
       # emissions caused directly by the table (cached flow)
       for p2, f2 in st.take_out():
